@@ -559,3 +559,63 @@ def vars_battery():
 
 
 vars_judge = literal_judge
+
+
+# ------------------------------------------------------------------ C12 malformed programs
+
+def malformed_battery():
+    bad = [
+        ("A B\nloop(n,3)\n1 1", "block open at EOF without newline"),
+        ("A B\nloop(n,3)\n1 1\n", "block open at EOF with newline"),
+        ("A B\nwhile(1)\n1 1", "while open at EOF without newline"),
+        ("A B\nloop(n,3)\nlet x = 1;", "block open at EOF after a let"),
+        ("A B\nloop(n,3)\nloop(k,2)\n1 1\nend loop", "outer block open at EOF"),
+        ("A B\nloop(n,3)\n1 1\nend while\n", "loop closed by end while"),
+        ("A B\nwhile(1)\n1 1\nend loop\n", "while closed by end loop"),
+        ("A B\nloop(i,2)\nwhile(1)\n1 1\nend loop\nend loop\n", "inner while closed by end loop"),
+        ("A B\nwhile(1)\nloop(i,2)\n1 1\nend while\nend while\n", "inner loop closed by end while"),
+        ("A B\n1 1\nend loop\n", "end at top level"),
+        ("A B\n1\n", "too few entries"),
+        ("A B\n1 1 1\n", "too many entries"),
+        ("A B\n1 1 C\n", "too many entries, surplus C"),
+        ("A B\nbits(3,1)\n", "bits wider than the header"),
+        ("A B\nlet x = 1\n1 1\n", "missing semicolon"),
+        ("A B\nloop(i,2\n1 1\nend loop\n", "missing closing parenthesis"),
+        ("A B\nloop(i 2)\n1 1\nend loop\n", "missing comma"),
+        ("A B\n(foo(1)) 1\n", "unknown function"),
+        ("A B\n(ite(1,2)) 1\n", "wrong number of arguments"),
+        ("A B\n(random(1,2)) 1\n", "wrong number of arguments for random"),
+        ("A B\n9223372036854775808 1\n", "literal does not fit in 64 bits"),
+        ("A B\n0x10000000000000000 1\n", "hex literal does not fit"),
+        ("A B\nbits(65,1)\n", "bits width 65"),
+        ("A B\nbits(255,1)\n", "bits width 255"),
+        ("A B\nbits(258,3)\n", "bits width 258 (low byte 2)"),
+        ("A B\nbits(1026,3)\n", "bits width 1026 (low byte 2)"),
+        ("A A\n1 1\n", "adjacent duplicate header names"),
+        ("A B A\n1 1 1\n", "separated duplicate header names"),
+        ("CLK D Q CLK\n1 1 1 1\n", "separated duplicate header names (4)"),
+        ("A B\ndeclare V = 1;\ndeclare V = 2;\n1 1\n", "duplicate declare"),
+        ("A B", "header not followed by a line break"),
+        ("A B\nloop(i,2)", "truncated after a loop header"),
+        ("A B\nwhile(1)", "truncated after a while header"),
+        ("A B\nlet x =", "truncated inside a let"),
+        ("A B\n(1 +", "truncated inside an expression"),
+        ("A B\n1 1 end loop\n", "end in a row"),
+    ]
+    good = [
+        ("A B\n1 1", "valid, no trailing newline"),
+        ("A B\nloop(i,2)\n1 1\nend loop", "valid loop, no trailing newline"),
+        ("A B\nloop(i,2)\nwhile(0)\n1 1\nend while\nend loop\n", "valid nesting"),
+        ("A B\nbits(2,3)\nbits(1,0) 1\n", "valid bits"),
+        ("A B\nrepeat(2) 1 1\n", "valid repeat"),
+        ("A B C\nbits(64, 0-1) \n", "bits(64) is allowed... but needs 64 columns"),
+    ]
+    out = []
+    for src, note in bad:
+        out.append(Scenario(src, [], mode="parse", expect={"parse": "err"}, note=note))
+    for src, note in good[:5]:
+        out.append(Scenario(src, [], mode="parse", expect={"parse": "ok"}, note=note))
+    return out
+
+
+malformed_judge = literal_judge
